@@ -41,6 +41,19 @@ impl RunOutcome {
     pub fn probe(&mut self, name: &str, n: u64) {
         *self.probes.entry(name.to_string()).or_insert(0) += n;
     }
+    pub fn merge(&mut self, o: RunOutcome) {
+        self.violations.extend(o.violations);
+        self.nontrivial |= o.nontrivial;
+        for (k, v) in o.probes {
+            *self.probes.entry(k).or_insert(0) += v;
+        }
+        self.sim_draws += o.sim_draws;
+        self.sim_evals += o.sim_evals;
+        self.sim_time_ns += o.sim_time_ns;
+        if let Some(i) = o.interleaving {
+            self.interleaving = Some(self.interleaving.unwrap_or(0) ^ i);
+        }
+    }
     pub fn violate(&mut self, key: impl Into<String>, detail: impl Into<String>) {
         self.violations.push(Violation {
             key: key.into(),
@@ -258,7 +271,7 @@ impl Ctx {
     fn write_replay<Sc: Scenario>(&self, batch: &str, index: u64, run_seed: u64, sc: &Sc, v: &Violation, shrink_steps: u64) -> String {
         let dir = verif_root().join("replays").join(&self.property);
         let _ = std::fs::create_dir_all(&dir);
-        let path = dir.join(format!("{}-{:016x}.json", batch, run_seed));
+        let path = dir.join(format!("{}-{:016x}-{:08x}.json", batch, run_seed, prng::label_hash(&v.key) as u32));
         let out = run_isolated(sc, run_seed);
         let doc = json!({
             "property": self.property,
